@@ -41,7 +41,7 @@ fn check(h: &v2::Header<'_>, input: &[u8], total: usize, fam: u8, who: &str) -> 
         no("family-size", format!("addresses.len()={} u16::from(family)={} is_empty={} for family {}", h.addresses.len(), u16::from(h.address_family()), h.addresses.is_empty(), fam));
     }
     let (dfam, wire) = a2_wire(&h.addresses);
-    if dfam != fam || wire != payload[..size.min(payload.len())] {
+    if dfam != fam || wire != payload[..size.min(payload.len())] || (fam != 0 && payload.len() < size) {
         no("decoded-fields", format!("decoded {:?} is not the big-endian reading of the address view", h.addresses));
     }
     let t = h.tlvs();
@@ -52,14 +52,36 @@ fn check(h: &v2::Header<'_>, input: &[u8], total: usize, fam: u8, who: &str) -> 
 }
 
 pub fn judge(input: &[u8], rec: &mut Recorder, hash: u64, copy_owned: bool) {
-    let (total, fam) = match v2_ref(input) {
-        V2Ref::Ok { total, fam, .. } => (total, fam),
-        _ => {
+    // the identities are about every header the IMPLEMENTATION accepts; the sizes they are
+    // compared with come from the wire (family nibble, length field), not from the oracle's verdict
+    let oracle_ok = matches!(v2_ref(input), V2Ref::Ok { .. });
+    let wire = if input.len() >= 16 && input[..12] == spec::v2::SIG && (input[13] >> 4) <= 3 {
+        let total = 16 + u16::from_be_bytes([input[14], input[15]]) as usize;
+        if total <= input.len() {
+            Some((total, input[13] >> 4))
+        } else {
+            None
+        }
+    } else {
+        None
+    };
+    let (total, fam) = match wire {
+        Some(w) => w,
+        None => {
             rec.case(hash, false);
             return;
         }
     };
+    if !oracle_ok {
+        // not a well-formed header: nothing is demanded unless the implementation accepts it anyway
+        if !matches!(guard(|| v2::Header::try_from(input).is_ok()), Ok(true)) {
+            rec.case(hash, false);
+            return;
+        }
+        rec.class("observed:accepted-although-the-oracle-rejects(C02's subject; identities still checked)", || show(&input[..input.len().min(32)], 32));
+    }
     rec.case(hash, true);
+    if oracle_ok {
     rec.class(
         match (fam, total - 16 == fam_size(fam).unwrap_or(0), total == 16 + 65535) {
             (0, true, _) => "oracle:unspec,empty-payload",
@@ -71,6 +93,7 @@ pub fn judge(input: &[u8], rec: &mut Recorder, hash: u64, copy_owned: bool) {
         },
         || show(&input[..input.len().min(32)], 32),
     );
+    }
     let r = guard(|| match v2::Header::try_from(input) {
         Ok(h) => {
             let mut bad = check(&h, input, total, fam, "borrowed");
@@ -86,7 +109,7 @@ pub fn judge(input: &[u8], rec: &mut Recorder, hash: u64, copy_owned: bool) {
         Err(_) => None,
     });
     rec.events(if copy_owned { 40 } else { 20 });
-    let mut report = |rec: &mut Recorder, rule: &str, d: String| {
+    let report = |rec: &mut Recorder, rule: &str, d: String| {
         rec.violation(rule, enc_case("v2", &input[..(total + 4).min(input.len())]), format!("fam{}|{}", fam, if total - 16 == fam_size(fam).unwrap_or(0) { "min" } else { "more" }), format!("{} on {:?} ({} header bytes): {}", rule, show(&input[..input.len().min(32)], 32), total, d));
     };
     match r {
@@ -115,6 +138,7 @@ impl Monitor for C14 {
         ];
         if tier != Tier::Miri {
             s.push(exhaustive("c14-ladder", 24 * 17 * 3));
+            s.push(exhaustive("v2-dense", spec::v2::dense_count()));
         }
         if tier == Tier::Thorough {
             s.push(exhaustive("c14-all-lengths", 24 * 65536));
